@@ -282,6 +282,17 @@ example : nzN.on = true ∧ NValid cN nzN oN uN := by
 example : applyBitflips nzN.p0 nzN.p1 uN [[1, 0, 1], [0, 0, 0]] = [[0, 0, 1], [0, 1, 0]] := by decide
 example : noisyTable cN nzN oN uN = [1, 2] := by decide
 
+/-- the hypotheses of the p = 0 and p = 1 theorems are satisfiable (numerators: `1` is the
+largest threshold, so the only uniform number below it is `0`). -/
+private theorem shapeZ : Shape 2 [0, 0] [(0 : ℕ), 0] [[5, 0], [2, 7]] [[1, 0], [0, 0]] :=
+  ⟨rfl, rfl, rfl, by decide, by decide⟩
+example : applyBitflips [0, 0] [(0 : ℕ), 0] [[5, 0], [2, 7]] [[1, 0], [0, 0]] = [[1, 0], [0, 0]] :=
+  T03_bitflip_zero_unchanged shapeZ (by decide) (by decide) (by decide)
+private theorem shapeO : Shape 2 [1, 1] [(1 : ℕ), 1] [[0, 0], [0, 0]] [[1, 0], [0, 0]] :=
+  ⟨rfl, rfl, rfl, by decide, by decide⟩
+example : applyBitflips [1, 1] [(1 : ℕ), 1] [[0, 0], [0, 0]] [[1, 0], [0, 0]] = [[0, 1], [1, 1]] :=
+  T03_bitflip_one_complemented shapeO (by decide) (by decide) (by decide) (by decide)
+
 example : ∑ x ∈ range 8, flipBit 3 5 x 0 = 3 ∧ ∑ x ∈ range 8, flipBit 3 5 x 1 = 3 := by decide
 
 end QV.Props.C03
